@@ -129,3 +129,41 @@ theorem mergeLoop_eq_mergeWith (cmp : Nat → Nat → Bool) (existing coverage :
   simpa [mergeLoop_eq_foldl] using h
 
 end PlzVerif.Coverage
+
+namespace PlzVerif.Coverage
+
+/-! ### `TestCoverage.Aggregate` on the Files map, as a finite map `name ↦ vector` (a Go map: keys are unique,
+    iteration order is not observable).  For every file of the incoming object: `acc[file] = merge(acc[file], c)`. -/
+
+abbrev FMap := String → Option (List Nat)
+
+def aggF (acc cov : FMap) : FMap := fun k =>
+  match cov k with
+  | none => acc k
+  | some c => some (mergeMax ((acc k).getD []) c)
+
+theorem mergeMax_nil_left (ys : List Nat) : mergeMax [] ys = ys := by cases ys <;> simp [mergeMax]
+
+theorem aggF_comm (a b : FMap) : aggF a b = aggF b a := by
+  funext k
+  unfold aggF
+  cases ha : a k <;> cases hb : b k <;> simp [mergeMax_nil_left, mergeMax_nil_right, mergeMax_comm]
+
+theorem aggF_assoc (a b c : FMap) : aggF (aggF a b) c = aggF a (aggF b c) := by
+  funext k
+  unfold aggF
+  cases ha : a k <;> cases hb : b k <;> cases hc : c k <;>
+    simp [ha, hb, hc, mergeMax_nil_left, mergeMax_nil_right, mergeMax_assoc]
+
+theorem aggF_idem (a : FMap) : aggF a a = a := by
+  funext k
+  unfold aggF
+  cases ha : a k <;> simp [mergeMax_idem]
+
+theorem foldl_aggF_perm {l₁ l₂ : List FMap} (p : l₁.Perm l₂) (init : FMap) :
+    l₁.foldl aggF init = l₂.foldl aggF init := by
+  apply List.Perm.foldl_eq' p
+  intro x _ y _ z
+  rw [aggF_assoc, aggF_comm x y, ← aggF_assoc]
+
+end PlzVerif.Coverage
